@@ -92,6 +92,31 @@ pub fn install_case(r: &mut Rep, lo: u8, hi: u8, pre: bool, form: u8) {
     }
 }
 
+/// the gate format for the same stubs placed in the higher half (kernels are usually linked there): every installed stub address,
+/// moved to 0xffff_8000_.. / 0xffff_ffff_8..., must be stored with all 64 offset bits
+fn high_half_gates(r: &mut Rep) {
+    use x86_64::structures::idt::{Entry, HandlerFunc};
+    let mut t = InterruptDescriptorTable::new();
+    set_general_handler!(&mut t, gh_record);
+    let b = table_bytes(&t);
+    for v in 0..=255u8 {
+        let g = decode_gate(b[16 * v as usize..16 * v as usize + 16].try_into().unwrap());
+        if !g.p {
+            continue;
+        }
+        for hi in [0xffff_8000_0000_0000u64, 0xffff_ffff_8000_0000] {
+            r.ev(true);
+            let a = hi | (g.offset & 0x7fff_ffff);
+            let mut e: Entry<HandlerFunc> = Entry::missing();
+            unsafe { e.set_handler_addr(VirtAddr::new(a)) };
+            let gg = decode_gate(&crate::c12::gate_bytes(&e));
+            if gg.offset != a || !gg.p || gg.reserved != 0 {
+                r.viol("C13|install|gate-for-a-higher-half-stub-does-not-hold-its-64-bit-address", &format!("highgate {} {:#x}", v, a), &format!("{:x?}", gg));
+            }
+        }
+    }
+}
+
 fn install_forms(r: &mut Rep) {
     // single-index and full-table forms of the macro
     let mut t = InterruptDescriptorTable::new();
@@ -385,6 +410,7 @@ pub fn run(a: &Args) {
             "entry" => entry_vector(&mut r, t[1].parse().unwrap()),
             "iretq" => crate::c13iret::run(&mut r, a),
             "entryframe" => { crate::simcpu::init(); crate::c13iret::entry_frames(&mut r, &Args { prop: "C13".into(), tier: "thorough".into(), shard: 0, nshards: 1, replay: None, extra: vec![] }) }
+            "highgate" => high_half_gates(&mut r),
             _ => install_forms(&mut r),
         }
         r.emit();
@@ -419,6 +445,7 @@ pub fn run(a: &Args) {
     }
     if a.shard == 0 {
         install_forms(&mut r);
+        guarded(&mut r, "C13|install|unexpected-panic", || "highgate".into(), |r| high_half_gates(r));
     }
     for v in 0..=255u8 {
         if v as usize % a.nshards == a.shard {
